@@ -20,7 +20,8 @@ MANIFEST = dict(
          "teardown (probe with panicking teardowns below every operator and inside Merge/TakeUntil/CombineLatest set-ups, every subset), leak (goroutines created by the library must not survive the "
          "subscription, for every goroutine/timer-owning operator and each way of ending). Kernel half (races between Complete, Error, Unsubscribe and Add; Add after disposal): see the kernel part when present in this build."
          ' Hot constructs: the release of the shared source after every event of the Share / connectable sequences (transition system and release theorems of RoProps/C11); kind=leak also subscribes the SAME observable value a second time (state kept per observable value instead of per subscription).'
-         ' Teardowns run outside the producer lock for the regenerated subscriber programs (C06lock, read by C06).',
+         ' Teardowns run outside the producer lock for the regenerated subscriber programs (C06lock, read by C06).'
+         ' A stream that ends by itself releases its subscription exactly once also when the teardown has to wait for a second producer and when the terminal of an eventually-safe subscriber arrives while a Next callback runs (kind=tdwait); Share twin (one operator value, two live sources).',
     technique="Lean 4 proof (run invariants; induction over finalizer trees) + kernel-decided SubscribeShape table + differential correspondence (teardown counters, order of runs, raised value) + goroutine-leak oracle",
     ref='5/C03')
 
